@@ -134,7 +134,7 @@ func main() {
 	r.FloorCount("reconcile_checks", int64(r.Pick(5, 50)))
 	r.FloorCount("create_races", int64(r.Pick(15, 100)))
 	r.FloorCount("diff_cases", int64(r.Pick(2000, 50000)))
-	r.FloorCount("reconcile_passes_overlapping_a_create_or_delete", int64(r.Pick(60, 400)))
+	r.FloorCount("reconcile_passes_overlapping_a_create_or_delete", int64(r.Pick(350, 1300)))
 	r.FloorCount("cluster_create_rounds_with_a_winner", int64(r.Pick(8, 40)))
 	r.FloorCount("cluster_restores_on_three_nodes", int64(r.Pick(1, 4)))
 	r.FloorCount("cluster_catalogue_replicas_caught_up_by_snapshot", int64(r.Pick(1, 4)))
@@ -1378,7 +1378,7 @@ func runReconcileRace(r *ev.Run, id caseID) {
 	e := c.Nodes[0].Engine
 	w := witness{Case: id}
 	cat := map[string]uint64{}
-	for round, nr := 0, r.Pick(40, 250); round < nr; round++ {
+	for round, nr := 0, r.Pick(400, 1500); round < nr; round++ {
 		name := fmt.Sprintf("rr%d", round)
 		del := ""
 		if len(cat) > 3 && g.Intn(3) == 0 {
@@ -1389,23 +1389,25 @@ func runReconcileRace(r *ev.Run, id caseID) {
 		}
 		var wg sync.WaitGroup
 		start := make(chan struct{})
-		for p := 0; p < 2; p++ {
+		// one pass per round: a second pass could put right what the first did wrong
+		delays := []time.Duration{time.Duration(g.Intn(400)) * time.Microsecond}
+		for p := 0; p < 1; p++ {
 			wg.Add(1)
 			go func(p int) {
 				defer wg.Done()
 				<-start
-				if p == 1 {
-					time.Sleep(time.Duration(g.Intn(300)) * time.Microsecond)
-				}
+				time.Sleep(delays[p])
 				_ = e.Manager.VerifReconcile()
 			}(p)
 		}
 		var cerr error
 		var tb table.Table
 		wg.Add(1)
+		lead := time.Duration(g.Intn(2500)) * time.Microsecond // the pass may be under way when the change starts
 		go func() {
 			defer wg.Done()
 			<-start
+			time.Sleep(lead)
 			if del != "" {
 				cerr = e.DeleteTable(del)
 			} else {
@@ -1414,9 +1416,9 @@ func runReconcileRace(r *ev.Run, id caseID) {
 		}()
 		close(start)
 		wg.Wait()
-		r.Count("reconcile_passes_overlapping_a_create_or_delete", 2)
+		r.Count("reconcile_passes_overlapping_a_create_or_delete", 1)
 		if del != "" {
-			w.Ops = append(w.Ops, fmt.Sprintf("delete(%s) || reconcile || reconcile", del))
+			w.Ops = append(w.Ops, fmt.Sprintf("delete(%s) || reconcile", del))
 			if cerr != nil {
 				w.What = cerr.Error()
 				r.Violation("delete-failed-for-existing-name", fmt.Sprintf("delete(%s) racing with reconciliation failed: %v", del, cerr), w)
@@ -1438,7 +1440,7 @@ func runReconcileRace(r *ev.Run, id caseID) {
 				return
 			}
 		} else {
-			w.Ops = append(w.Ops, fmt.Sprintf("create(%s) || reconcile || reconcile", name))
+			w.Ops = append(w.Ops, fmt.Sprintf("create(%s) || reconcile", name))
 			if cerr != nil {
 				w.What = cerr.Error()
 				r.Violation("create-failed-for-free-name", fmt.Sprintf("create(%s) racing with reconciliation failed: %v", name, cerr), w)
